@@ -3,6 +3,7 @@ import Mathlib.Tactic.Ring
 import Mathlib.Tactic.Linarith
 import Mathlib.Algebra.Order.Field.Rat
 import Mathlib.Algebra.BigOperators.Group.List.Basic
+import Mathlib.Data.List.Nodup
 
 namespace Pew.Overlap
 
@@ -211,5 +212,229 @@ theorem axis_normalised (ndim : Nat) (arrs : List Arr) (a : Arr) (k : Nat) (hk :
     (ha : a.off.length = ndim) :
     axis k (sub a.off (minOffset ndim arrs)) = axis k a.off - minList (arrs.map (fun a => axis k a.off)) := by
   rw [axis_sub _ _ _ (by omega) (by rw [minOffset_length]; exact hk), axis_minOffset _ _ _ hk]
+
+end Pew.Overlap
+
+namespace Pew.Overlap
+
+/-! ### the geometry (offset normalisation, bounding box) does not look at the pixel values -/
+
+/-- the array with its values forgotten -/
+def bare (a : Arr) : Arr := { off := a.off, shape := a.shape, get := fun _ => none }
+
+theorem minOffset_bare (ndim : Nat) (l : List Arr) : minOffset ndim (l.map bare) = minOffset ndim l := by
+  simp [minOffset, bare, List.map_map, Function.comp_def]
+
+theorem newShape_bare (ndim : Nat) (l : List Arr) : newShape ndim (l.map bare) = newShape ndim l := by
+  simp [newShape, bare, List.map_map, Function.comp_def]
+
+theorem normalise_bare (ndim : Nat) (l : List Arr) : normalise ndim (l.map bare) = (normalise ndim l).map bare := by
+  simp [normalise, minOffset_bare, List.map_map, Function.comp_def, bare]
+
+theorem bare_field (a : SArr) (n : String) :
+    bare (a.field n) = { off := a.off, shape := a.shape, get := fun _ => none } := by
+  unfold SArr.field bare
+  cases a.fields.lookup n <;> rfl
+
+theorem field_reoff (a : SArr) (n : String) (o : List Int) :
+    { a.field n with off := o } = ({ a with off := o } : SArr).field n := by
+  unfold SArr.field
+  cases a.fields.lookup n <;> rfl
+
+theorem field_normalised (a : SArr) (n : String) (mo : List Int) :
+    ((fun (b : Arr) => ({ b with off := sub b.off mo } : Arr)) ∘ fun (x : SArr) => x.field n) a
+      = ((fun (x : SArr) => x.field n) ∘ fun (b : SArr) => ({ b with off := sub b.off mo } : SArr)) a := by
+  simp only [Function.comp, SArr.field]
+  cases a.fields.lookup n <;> rfl
+
+theorem field_off (a : SArr) (n : String) : (a.field n).off = a.off := by
+  unfold SArr.field
+  cases a.fields.lookup n <;> rfl
+
+/-! ### minimum and maximum of a permuted list -/
+
+theorem minList_perm (l₁ l₂ : List Int) (h : l₁.Perm l₂) : minList l₁ = minList l₂ := by
+  by_cases h1 : l₁ = []
+  · subst h1; rw [h.nil_eq]
+  · have h2 : l₂ ≠ [] := fun e => h1 (by subst e; exact h.eq_nil)
+    have a := minList_le l₁ _ (h.mem_iff.mpr (minList_mem l₂ h2))
+    have b := minList_le l₂ _ (h.mem_iff.mp (minList_mem l₁ h1))
+    omega
+
+theorem maxList_perm (l₁ l₂ : List Int) (h : l₁.Perm l₂) : maxList l₁ = maxList l₂ := by
+  by_cases h1 : l₁ = []
+  · subst h1; rw [h.nil_eq]
+  · have h2 : l₂ ≠ [] := fun e => h1 (by subst e; exact h.eq_nil)
+    have a := le_maxList l₁ _ (h.mem_iff.mpr (maxList_mem l₂ h2))
+    have b := le_maxList l₂ _ (h.mem_iff.mp (maxList_mem l₁ h1))
+    omega
+
+theorem minOffset_perm (ndim : Nat) (a₁ a₂ : List Arr) (h : a₁.Perm a₂) : minOffset ndim a₁ = minOffset ndim a₂ := by
+  unfold minOffset
+  apply List.map_congr_left
+  intro k _
+  exact minList_perm _ _ (h.map _)
+
+theorem normalise_perm (ndim : Nat) (a₁ a₂ : List Arr) (h : a₁.Perm a₂) :
+    (normalise ndim a₁).Perm (normalise ndim a₂) := by
+  unfold normalise
+  rw [minOffset_perm ndim a₁ a₂ h]
+  exact h.map _
+
+theorem newShape_perm (ndim : Nat) (a₁ a₂ : List Arr) (h : a₁.Perm a₂) : newShape ndim a₁ = newShape ndim a₂ := by
+  unfold newShape
+  apply List.map_congr_left
+  intro k _
+  exact maxList_perm _ _ (h.map _)
+
+end Pew.Overlap
+
+namespace Pew.Overlap
+
+/-! ### merged field lists (names, and (name, dtype) pairs) -/
+
+theorem hasDup_eq_false_iff (l : List String) : hasDup l = false ↔ l.Nodup := by
+  induction l with
+  | nil => simp [hasDup]
+  | cons x xs ih => simp [hasDup, ih]
+
+/-- one step of the merge loops: append what is not yet present -/
+def mergeStep {α : Type} [BEq α] (acc new : List α) : List α := acc ++ new.filter (fun d => !acc.contains d)
+
+theorem mergeStep_nodup {α : Type} [BEq α] [LawfulBEq α] (acc new : List α) (ha : acc.Nodup) (hn : new.Nodup) :
+    (mergeStep acc new).Nodup := by
+  unfold mergeStep
+  rw [List.nodup_append]
+  refine ⟨ha, hn.filter _, ?_⟩
+  intro x hx y hy
+  simp only [List.mem_filter, Bool.not_eq_eq_eq_not, Bool.not_true, List.contains_eq_mem,
+    decide_eq_false_iff_not] at hy
+  intro e
+  subst e
+  exact hy.2 hx
+
+theorem mergeStep_mem {α : Type} [BEq α] [LawfulBEq α] (acc new : List α) (x : α) :
+    x ∈ mergeStep acc new ↔ x ∈ acc ∨ x ∈ new := by
+  unfold mergeStep
+  simp only [List.mem_append, List.mem_filter, Bool.not_eq_eq_eq_not, Bool.not_true, List.contains_eq_mem,
+    decide_eq_false_iff_not]
+  constructor
+  · rintro (h | h)
+    · exact Or.inl h
+    · exact Or.inr h.1
+  · rintro (h | h)
+    · exact Or.inl h
+    · by_cases hc : x ∈ acc
+      · exact Or.inl hc
+      · exact Or.inr ⟨h, hc⟩
+
+theorem foldl_mergeStep_nodup {α β : Type} [BEq α] [LawfulBEq α] (f : β → List α) (l : List β) (acc : List α)
+    (ha : acc.Nodup) (hn : ∀ b ∈ l, (f b).Nodup) : (l.foldl (fun acc b => mergeStep acc (f b)) acc).Nodup := by
+  induction l generalizing acc with
+  | nil => exact ha
+  | cons b l ih =>
+    simp only [List.foldl_cons]
+    exact ih _ (mergeStep_nodup acc (f b) ha (hn b (by simp))) (fun b' hb' => hn b' (by simp [hb']))
+
+theorem foldl_mergeStep_mem {α β : Type} [BEq α] [LawfulBEq α] (f : β → List α) (l : List β) (acc : List α) (x : α) :
+    x ∈ l.foldl (fun acc b => mergeStep acc (f b)) acc ↔ x ∈ acc ∨ ∃ b ∈ l, x ∈ f b := by
+  induction l generalizing acc with
+  | nil => simp
+  | cons b l ih =>
+    simp only [List.foldl_cons]
+    rw [ih, mergeStep_mem]
+    simp only [List.mem_cons, exists_eq_or_imp]
+    tauto
+
+theorem mergedNames_eq (arrs : List SArr) :
+    mergedNames arrs = arrs.foldl (fun acc a => mergeStep acc (a.fields.map (·.1))) [] := rfl
+
+theorem mergedDescr_eq (arrs : List DArr) :
+    mergedDescr arrs = arrs.foldl (fun acc a => mergeStep acc a.descr) [] := rfl
+
+theorem mergedNames_nodup (arrs : List SArr) (h : ∀ a ∈ arrs, (a.fields.map (·.1)).Nodup) :
+    (mergedNames arrs).Nodup := by
+  rw [mergedNames_eq]
+  exact foldl_mergeStep_nodup _ _ _ List.nodup_nil h
+
+theorem descr_nodup (a : DArr) (h : (a.fields.map (·.1)).Nodup) : a.descr.Nodup := by
+  have : a.descr.map (·.1) = a.fields.map (·.1) := by simp [DArr.descr, List.map_map, Function.comp_def]
+  rw [← this] at h
+  exact List.Nodup.of_map _ h
+
+theorem mergedDescr_nodup (arrs : List DArr) (h : ∀ a ∈ arrs, (a.fields.map (·.1)).Nodup) :
+    (mergedDescr arrs).Nodup := by
+  rw [mergedDescr_eq]
+  exact foldl_mergeStep_nodup _ _ _ List.nodup_nil (fun a ha => descr_nodup a (h a ha))
+
+theorem mergedDescr_mem (arrs : List DArr) (d : String × DT) :
+    d ∈ mergedDescr arrs ↔ ∃ a ∈ arrs, d ∈ a.descr := by
+  rw [mergedDescr_eq, foldl_mergeStep_mem]
+  simp
+
+/-- with one dtype everywhere the (name, dtype) merge is the name merge -/
+theorem mergeStep_map_inj {α β : Type} [BEq α] [LawfulBEq α] [BEq β] [LawfulBEq β] (g : α → β)
+    (hg : Function.Injective g) (acc new : List α) :
+    mergeStep (acc.map g) (new.map g) = (mergeStep acc new).map g := by
+  unfold mergeStep
+  rw [List.map_append, List.filter_map]
+  congr 2
+  apply List.filter_congr
+  intro x _
+  simp only [Function.comp, List.contains_eq_mem, List.mem_map_of_injective hg]
+
+theorem mergedDescr_allF8 (arrs : List DArr) (h : ∀ a ∈ arrs, ∀ f ∈ a.fields, f.2.1 = DT.f8) :
+    mergedDescr arrs = (mergedNames (arrs.map DArr.toS)).map (fun n => (n, DT.f8)) := by
+  rw [mergedDescr_eq, mergedNames_eq]
+  have hg : Function.Injective (fun n : String => (n, DT.f8)) := fun x y e => by simpa using e
+  have key : ∀ (acc : List String),
+      arrs.foldl (fun acc a => mergeStep acc a.descr) (acc.map (fun n => (n, DT.f8)))
+        = ((arrs.map DArr.toS).foldl (fun acc a => mergeStep acc (a.fields.map (·.1))) acc).map (fun n => (n, DT.f8)) := by
+    induction arrs with
+    | nil => intro acc; rfl
+    | cons a l ih =>
+      intro acc
+      simp only [List.map_cons, List.foldl_cons]
+      have hd : a.descr = (a.toS.fields.map (·.1)).map (fun n => (n, DT.f8)) := by
+        simp only [DArr.descr, DArr.toS, List.map_map]
+        apply List.map_congr_left
+        intro f hf
+        simp only [Function.comp]
+        rw [← h a (by simp) f hf]
+      rw [hd, mergeStep_map_inj _ hg]
+      exact ih (fun a' ha' => h a' (by simp [ha'])) _
+  exact key []
+
+theorem lookup_mem {α : Type} (l : List (String × α)) (n : String) (v : α) (h : l.lookup n = some v) : (n, v) ∈ l := by
+  induction l with
+  | nil => simp at h
+  | cons x xs ih =>
+    obtain ⟨k, w⟩ := x
+    by_cases e : n = k
+    · subst e
+      simp only [List.lookup_cons_self, Option.some.injEq] at h
+      subst h
+      simp
+    · have : (n == k) = false := by simpa using e
+      rw [List.lookup_cons, this] at h
+      exact List.mem_cons_of_mem _ (ih h)
+
+theorem canvasDT_allF8 (arrs : List DArr) (h : ∀ a ∈ arrs, ∀ f ∈ a.fields, f.2.1 = DT.f8) (name : String) :
+    canvasDT arrs name = DT.f8 := by
+  cases arrs with
+  | nil => rfl
+  | cons a l =>
+    simp only [canvasDT]
+    cases hl : a.fields.lookup name with
+    | none => rfl
+    | some f => exact h a (by simp) (name, f) (lookup_mem _ _ _ hl)
+
+theorem mapM_ok_of_forall {α β ε : Type} (f : α → Except ε β) (g : α → β) (l : List α)
+    (h : ∀ d ∈ l, f d = .ok (g d)) : l.mapM f = .ok (l.map g) := by
+  induction l with
+  | nil => rfl
+  | cons x xs ih =>
+    rw [List.mapM_cons, h x (by simp), ih (fun d hd => h d (by simp [hd]))]
+    rfl
 
 end Pew.Overlap
